@@ -72,6 +72,14 @@ CHECKS = {
                 technique="k-th-allocation failure enumeration through lrtr_set_alloc_functions with a tagged-header allocator; every run's trace validated against the table trace specs whose failing variants (OpFails: error, nothing changed, no callback) are admissible only in the call where the failure was injected; whole synchronisations validated for containment by RtrSocketTrace.tla (OK_C18)",
                 text="For each table history a counting run checks that nothing stays allocated and no block reaches the wrong allocator; then every allocation k is failed once in a fresh process. TLC accepts a run only if the operation that saw the failure either reported an error with no effect at all or succeeded, and all later operations behave per contract (set semantics intact). A process that dies is an observation identified by the rtrlib/tommyds function whose allocation was failed. The same enumeration over conversations with full loads, deltas and atomic reloads checks no crash/hang, other sources' records untouched, callbacks consistent.",
                 note="single failures per run; private reload helpers excluded from the table histories; synchronisations checked for containment, not all-or-nothing; one open known finding (tommy_hashlin_init)"),
+    "C16": dict(engine="conc", cat="model_checking", ref="5/C16",
+                technique="TLC on TableConc.tla (RaceFree, Linearizable, NoTornRead over every interleaving of lock calls and accesses) + trace validation of reads by concurrent threads against versions replayed on the table contracts (ConcTrace.tla) + ThreadSanitizer build",
+                text="A writer thread runs a seeded history on both tables and publishes an operation counter around every call; readers validate, look up keys and enumerate, logging the counter at call and return; TLC replays the writer's history on PfxTable/SpkiTable semantics (RFC 6811 oracle) and accepts a read iff some version inside its interval gives that answer. The same workload in a TSan build: any data-race report on rtrlib/tommyds frames is a violation; ASan turns use-after-free by a reader into a crash.",
+                note='lock-protocol model exhaustive for 2 readers x 3 mutations; on the code side schedules are sampled by the OS scheduler (plus one steered reader for C06); acceptance criteria are sound for any schedule, a race window can be missed; ASan/TSan as instruments'),
+    "C06": dict(engine="conc", cat="model_checking", ref="5/C06",
+                technique="TableConc.tla for the lock protocol + trace validation (ConcTrace.tla) of reader threads running against atomic reloads performed by the real rtr_sync(); one reader is steered (link-time wrap of pthread_rwlock_rdlock) to sit at the lock across each reload",
+                text="The real rtr_sync() reloads thousands of records (scripted in-memory transport, with and without router keys) while readers validate probe routes and look up probe keys; each read logs a global sequence number at call and return and the generations complete / in progress; TLC accepts a read iff it equals the data of exactly one generation in that window (never empty or mixed) and no read that starts after another returned sees an older generation (per table).",
+                note='lock-protocol model exhaustive for 2 readers x 3 mutations; on the code side schedules are sampled by the OS scheduler (plus one steered reader for C06); acceptance criteria are sound for any schedule, a race window can be missed; ASan/TSan as instruments'),
 }
 
 NA_REASON = "check not built yet in this round (planned: see DESIGN.md section 5); no claim is made"
